@@ -14,7 +14,7 @@ for f in sorted(glob.glob(DEST+'/RESULTS.seed*.tsv')):
         p=line.rstrip('\n').split('\t')
         if len(p)>=3: final.setdefault(p[0],{})[sd]=(p[2],p[3] if len(p)>3 else '')
 rows=[]
-for d in sorted(glob.glob(DEST+'/C*-[456789]'), key=lambda x:(x.split('/')[-1][:3], int(x.split('-')[-1]))):
+for d in sorted([d for d in glob.glob(DEST+'/C*-*') if os.path.isdir(d) and int(d.split('-')[-1])>=4], key=lambda x:(x.split('/')[-1][:3], int(x.split('-')[-1]))):
     key=os.path.basename(d)
     m=json.load(open(d+'/meta.json'))
     am=m.get('agent_meta') or {}
@@ -22,7 +22,7 @@ for d in sorted(glob.glob(DEST+'/C*-[456789]'), key=lambda x:(x.split('/')[-1][:
         first=m.get('quick_tier_exit_codes',{})
         conf=m.get('confirmed',{})
         new={
-          'seed': key, 'round': 2 if int(key.split('-')[1])<=6 else 3, 'breaks_property': key[:3],
+          'seed': key, 'round': 2 if int(key.split('-')[1])<=6 else (3 if int(key.split('-')[1])<=9 else 4), 'breaks_property': key[:3],
           'title': am.get('title',''), 'files_changed': am.get('files_changed',[]),
           'what_breaks': am.get('what_breaks',''), 'needs_to_manifest': am.get('needs_to_manifest',''),
           'violated_clause_as_quoted_by_its_author': am.get('violated_clause',''),
